@@ -20,6 +20,8 @@ PROPS = {
     "C11": dict(harness="gcs", trusted=GCS_TRUST, assumptions=["page tokens compared by the name they decode to"],
                 oracle_codes={1: "a complete pagination does not yield exactly the matching names once, in order", 2: "collapsed prefixes of a complete pagination are not exactly the distinct prefixes, once", 3: "a page holds more than maxResults entries"}),
     "C15": dict(harness="gcs", trusted=GCS_TRUST, assumptions=["generation numbers compared by rank"]),
+    "C06": dict(harness="bt", trusted=BT_TRUST + ["sync.RWMutex, the Go scheduler and memory model are not modelled: a lock is an atomic acquire/release; preemption is exhibited only at the instrumented yield points"],
+                assumptions=["blocking is observed through the runtime's goroutine wait state (stack frame in sync.RWMutex)"]),
     "C01": dict(harness="bt", trusted=BT_TRUST, assumptions=["server clock and sample coins are inputs"]),
     "C03": dict(harness="bt", trusted=BT_TRUST, assumptions=["server clock and sample coins are inputs"]),
     "C05": dict(harness="bt", trusted=BT_TRUST, assumptions=["server clock and sample coins are inputs"]),
@@ -83,6 +85,8 @@ TEXT = {
              level="Theorems about parseConds/validateConds and every handler model: the code's truth table equals 'every supplied precondition holds' for all values and object states (guarded; the excluded case is refuted by a witness = finding GCS-7), failure codes lie in the allowed set, errors leave all objects untouched. Correspondence: the complete 4-parameter x 6-value x 4-state x 7-operation x 2-store table plus random histories, with a model-independent oracle on the observed responses." + _CORR, note=_NOTE),
  "C05": dict(technique="Coq proof (regex matcher correctness, filter evaluator vs denotational filter semantics) + differential correspondence on generated filter trees, 3 engines",
              level="Theorems about the filter model: the derivative matcher decides the regular language; the evaluator refines the cell-list semantics of every supported filter; invalid arguments are rejected by the validator for all trees." + _CORR, note=_NOTE),
+ "C06": dict(technique="Coq proof (interleaving model: every schedule equals the serial execution of the critical sections in acquisition order; failure atomicity of the write handlers) + exhaustive two-request interleavings driven through yield hooks on the real server, 3 engines",
+             level="Theorems about the interleaving model of the table lock (any number of threads, any schedule): the lock invariant, equality of every scheduled run with the serial run in acquisition order (responses included), real-time order, and failure atomicity of MutateRow / MutateRows entries / CheckAndMutateRow / ReadModifyWriteRow for every position of an invalid mutation. Correspondence: all interleavings of two requests at the instrumented yield points are executed on real goroutines and compared step by step (parked / blocked / returned + response), then a full read." + _CORR, note=_NOTE + " The Go scheduler, sync.RWMutex and the memory model are assumptions; preemption is exhibited only at hook points."),
  "C09": dict(technique="Coq proof (file-store walk model agrees with the memory-store walk on order-compatible name sets; refuted otherwise) + paired differential correspondence (both stores against their models) with a restart probe at request boundaries",
              level="One handler model serves both stores and differs only in the listing walk (bytewise order vs filepath.Walk order with directory entries); theorems relate the two walks, and the order discrepancy (GCS-2) is refuted by a witness. Correspondence: each program runs on both real stores against the corresponding model; on the file store a fresh emulator instance on the same directory must answer like the running one at request boundaries; a sidecar-less content file must be served." + _CORR, note=_NOTE),
  "C10": dict(technique="Coq invariant proof (generation counter monotone, metageneration laws) + differential correspondence on random histories, both stores",
